@@ -89,7 +89,9 @@ def classify(div, policy):
             return 'foreign', 'accepted although foreign guard(s) %s fail' % sorted(fails)
         # spec accepts, code rejects: charged only through the control rule
         c = div.get('control_ok')
-        if div.get('act', {}).get('name') in policy.get('complete_actions', []):
+        full = all(t == 'Valid' for t in div.get('act', {}).get('proof', {}).get('sigs', []))
+        if div.get('act', {}).get('name') in policy.get('complete_actions', []) and \
+                (policy.get('complete_when') != 'full_proof' or full):
             return 'violation', 'rejected although the specification accepts (the statement promises acceptance for this entry point)'
         if c is True:
             return 'violation', 'rejected although the specification accepts, and the control with this property\'s dimension relaxed is accepted'
